@@ -26,7 +26,8 @@ impl NewReno {
     /// Construct a state using the given `config` and current time `now`
     pub fn new(config: Arc<NewRenoConfig>, now: Instant, current_mtu: u16) -> Self {
         Self {
-            window: config.initial_window,
+            // never start below `minimum_window()`, whatever the configured window and initial MTU
+            window: config.initial_window.max(2 * current_mtu as u64),
             ssthresh: u64::MAX,
             recovery_start_time: now,
             current_mtu: current_mtu as u64,
